@@ -85,6 +85,12 @@ func isIndexOrSlice(n ast.Node) bool {
 func (e *oblEngine) record(kind string, f *ssa.Function, ins ssa.Instruction, construct string, ok bool, trivial bool, how string) {
 	fn := e.w.FuncName(f)
 	pos := e.w.Pos(ins.Pos())
+	if kind == "IDX" {
+		if e.r.idxLines == nil {
+			e.r.idxLines = map[string]bool{}
+		}
+		e.r.idxLines[pos] = true
+	}
 	if !ok {
 		if why, has := justifications[kind+"|"+fn+"|"+construct]; has {
 			e.used[kind+"|"+fn+"|"+construct] = true
@@ -105,6 +111,13 @@ func (e *oblEngine) record(kind string, f *ssa.Function, ins ssa.Instruction, co
 
 func (e *oblEngine) idx(f *ssa.Function) {
 	w := e.w
+	if syn := f.Syntax(); syn != nil {
+		if e.r.idxFuncs == nil {
+			e.r.idxFuncs = map[string][3]interface{}{}
+		}
+		p0, p1 := w.Fset.Position(syn.Pos()), w.Fset.Position(syn.End())
+		e.r.idxFuncs[w.FuncName(f)] = [3]interface{}{w.Pos(syn.Pos())[:strings.LastIndex(w.Pos(syn.Pos()), ":")], p0.Line, p1.Line}
+	}
 	allInstrs(f, func(i ssa.Instruction) {
 		switch x := i.(type) {
 		case *ssa.IndexAddr:
